@@ -12,7 +12,7 @@ META = dict(
                 'and the emitted list is compared with the list definition of the property statement, written directly on Python lists: first/last/take(n); distinct = first occurrences; '
                 'distinct_until_changed = heads of runs (with and without key_mapper); lag(n) = (items[max(0,i-n)], items[i]); pad_start / pad_end / start_with padding around a non-empty sequence; '
                 'batch(n) = chunks of exactly n plus one non-empty remainder, concatenation = input; sort = stable ordered permutation. One obligation per operator x mode x length x parameter value; the stateful ones also after an aborted first subscription of the same operator objects (retry) and on a second clean subscription.',
-    bounds=dict(quick='N <= 5 items (int or None; distinct: ints in 0..2 because the real code hashes them), take n in 0..N+1, lag 1..3, batch 1..N+1, pad size 0..2 value None/explicit; sort N <= 3',
+    bounds=dict(quick='N <= 5 items (int or None; distinct: ints in 0..2 because the real code hashes them), take n in 0..N+1, lag 1..3, batch 1..N+1, pad size 0..2 value None/explicit; sort N <= 3; long-but-narrow: 9 / 17 groups live at once with the operator placed after a filter (a group live without state while the tables grow), a key with more than 8 different values',
                 thorough='N <= 7 (sort N <= 4, distinct N <= 5)'),
     outside='N above the bound; key mappers that raise; unhashable items for distinct',
     assumptions=['list definitions in vp/props/C10.py transcribe the property statement'],
